@@ -190,7 +190,7 @@ def dsl_args(macro, methods):
     return "%s [%s]" % (macro, ",".join("[%s,%s]" % (n if n in METHODS else "other", s) for n, s in methods))
 
 
-def dsl_cases(tier):
+def dsl_cases(tier, seed=1):
     """list of (tag, macro, methods)."""
     thorough = tier == "thorough"
     out = []
@@ -286,6 +286,57 @@ def dsl_cases(tier):
         add("mixed", "collect", [e("flatten"), g("copied"), e("filter")], [e("flatten"), e("copied"), g("filter")])
         add("mixed", "for_each", [g("flatten"), e("map"), g("step_by")], [e("flatten"), g("map")])
         add("mixed", "eval", [e("filter"), g("step_by"), g("count")], [g("filter"), e("count")])
+    # --- bounded-exhaustive: every single method x every argument shape x every macro
+    def natural(n):
+        return (n, "e" if n in ARGLESS else "g")
+
+    def klass(macro, ms):
+        """tag of a chain from the property's own vocabulary (not from the model)"""
+        names = [n for n, _ in ms]
+        if any(n not in METHODS for n in names):
+            return "unsupported"
+        if any(s == "n" for _, s in ms):
+            return "no-parentheses"
+        if any((s == "g") != (n not in ARGLESS) for n, s in ms):
+            return "args-to-argless" if any(s == "g" and n in ARGLESS for n, s in ms) else "missing-arguments"
+        if sum(1 for n in names if n in ("rev", "rfind", "rfold", "rposition")) > 1:
+            return "rev-twice"
+        cons = [i for i, n in enumerate(names) if n in CONSUMERS]
+        if cons and macro != "eval":
+            return "consumer-in-adapter-macro"
+        if cons and cons != [len(names) - 1]:
+            return "consumer-not-last"
+        return "control"
+
+    for m in macros:
+        for n in METHODS + ["last"]:
+            for sh in ("n", "e", "g"):
+                ms = [(n, sh)]
+                add(klass(m, ms), m, ms)
+    # --- every ordered pair of methods with their natural argument shapes (thorough: every macro;
+    #     quick: every pair that involves a reversing method or a consumer, in eval!)
+    for m in macros:
+        for a in METHODS:
+            for b in METHODS:
+                interesting = (a in ("rev", "rfind", "rfold", "rposition") or b in ("rev", "rfind", "rfold", "rposition")
+                               or a in CONSUMERS)
+                both_adapters = a not in CONSUMERS and b not in CONSUMERS
+                if ((thorough and (m == "eval" or interesting or (m == "for_each" and both_adapters and a < b)))
+                        or (m == "eval" and interesting)):
+                    ms = [natural(a), natural(b)]
+                    add(klass(m, ms), m, ms)
+    # --- seeded random chains of 3-4 methods with random argument shapes
+    import random
+    rng = random.Random(1234 + int(seed))
+    for _ in range(150 if thorough else 60):
+        m = rng.choice(macros)
+        k = rng.choice([3, 3, 4])
+        ms = []
+        for _i in range(k):
+            n = rng.choice(METHODS)
+            sh = natural(n)[1] if rng.random() < 0.8 else rng.choice(["n", "e", "g"])
+            ms.append((n, sh))
+        add(klass(m, ms), m, ms)
     # --- long valid chains
     add("control", "for_each", [g("filter"), g("map"), e("enumerate"), g("skip"), g("take"), e("rev")])
     add("control", "collect", [g("zip"), g("skip_while"), g("take_while"), e("rev"), g("filter_map")])
@@ -377,6 +428,31 @@ def pm_cases(tier):
         add("match-syntax-in-trim", form, "b", [(["s"], E, 1), dflt], None)
         if thorough:
             add("match-syntax-in-trim", form, "b", [dflt_nc], None)
+    # --- bounded-exhaustive: every branch list of length <= 2 (thorough: <= 3 over a smaller
+    #     alphabet) over {literal, `_`, constant} x {expression, block} x {comma, no comma}
+    import itertools
+
+    def pm_class(bs):
+        """tag from the property's own vocabulary"""
+        if not bs or bs[-1][0] != ["w"]:
+            return "missing-default"
+        if any(b[0] == ["w"] for b in bs[:-1]):
+            return "misplaced-default"
+        if any(p not in LIT_OK for b in bs[:-1] for p in b[0]):
+            return "non-literal-pattern"
+        if any(b[2] == 0 and b[1] == "e" for b in bs[:-1]):
+            return "missing-comma"
+        return "control"
+
+    kinds = [(ps, bk, c) for ps in (["s"], ["w"], ["k"]) for bk in (E, B) for c in (0, 1)]
+    for n in (1, 2):
+        for bs in itertools.product(kinds, repeat=n):
+            add(pm_class(list(bs)), "strip_prefix", "b", list(bs))
+    if thorough:
+        kinds3 = [(ps, bk, c) for ps in (["s"], ["w"]) for bk in (E, B) for c in (0, 1)]
+        last3 = [(["w"], E, 0), (["w"], E, 1), (["s"], E, 1)]
+        for bs in itertools.product(kinds3, kinds3, last3):
+            add(pm_class(list(bs)), "find_skip", "b", list(bs))
     add("unknown-method", "skip_prefix", "b", [(["s"], E, 1), dflt], None)
     add("unknown-method", "trim_matches", "p", ["s"], None)
     return out
@@ -513,11 +589,11 @@ def de_cases(tier):
 
 # ------------------------------------------------------------------ driver
 
-def all_programs(tier):
+def all_programs(tier, seed=1):
     """list of (family, args, tag, source)"""
     progs = []
     seen = set()
-    for tag, macro, methods in dsl_cases(tier):
+    for tag, macro, methods in dsl_cases(tier, seed):
         src = dsl_program(macro, methods)
         a = dsl_args(macro, methods)
         if src is None or ("dsl", a) in seen:
@@ -572,7 +648,7 @@ def check_bins_with_codes(name, timeout=2400):
 
 
 def produce(tier, seed, release, out_path, debug=False):
-    progs = all_programs(tier)
+    progs = all_programs(tier, seed)
     bins = {}
     names = []
     for i, (fam, a, tag, src) in enumerate(progs):
